@@ -156,8 +156,13 @@ def runnable(draw, families=("mlp", "mlp-ln", "conv", "lin"), feats=None):
     fam = draw(st.sampled_from(list(families)))
     if fam in ("mlp", "mlp-ln", "lin"):
         feats = feats or [3, 8, 16, 33, 64, 96, 128, 160]
-        return {"fam": fam, "i": draw(st.sampled_from(feats)), "h": draw(st.sampled_from([4, 8, 17, 32])), "o": draw(st.integers(1, 9)), "bias": draw(st.booleans()),
-                "act": draw(st.sampled_from(["relu", "gelu", "none"])), "depth": draw(st.integers(1, 3))}
+        r = {"fam": fam, "i": draw(st.sampled_from(feats)), "h": draw(st.sampled_from([4, 8, 17, 32])), "o": draw(st.integers(1, 9)), "bias": draw(st.booleans()),
+             "act": draw(st.sampled_from(["relu", "gelu", "none"])), "depth": draw(st.integers(1, 3))}
+        if fam == "mlp-ln":
+            # LayerNorm hyper-parameters: without affine parameters the quantized module has no weight at all (only scale buffers)
+            r["ln_affine"] = draw(st.sampled_from([True, True, False]))
+            r["ln_bias"] = draw(st.booleans())
+        return r
     hp = draw(conv_hparams())
     hp2 = draw(conv_hparams(cin=hp["co"]))
     return {"fam": "conv", "c1": hp, "c2": hp2 if draw(st.booleans()) else None, "hw": draw(st.integers(5, 8))}
@@ -178,7 +183,7 @@ def build_runnable(r, g):
     d = r["i"]
     for k in range(r["depth"]):
         if fam == "mlp-ln":
-            mods.append(build_tree({"t": "ln", "shape": [d], "affine": True, "bias": True, "eps": 1e-5}, g))
+            mods.append(build_tree({"t": "ln", "shape": [d], "affine": r.get("ln_affine", True), "bias": r.get("ln_bias", True) if r.get("ln_affine", True) else True, "eps": 1e-5}, g))
         mods.append(build_tree({"t": "linear", "i": d, "o": r["h"], "bias": r["bias"]}, g))
         mods.append(acts[r["act"]]())
         d = r["h"]
